@@ -1061,6 +1061,27 @@ func (t *Transaction) DropIndexByKey(handle Handle, key bsonkit.Doc) error {
 	return nil
 }
 
+// snapshot returns the current state of the transaction that can later be
+// passed to rollback.
+func (t *Transaction) snapshot() (*Catalog, bool) {
+	// acquire read lock
+	t.mutex.RLock()
+	defer t.mutex.RUnlock()
+
+	return t.catalog, t.dirty
+}
+
+// rollback resets the transaction to a state obtained from snapshot. Catalogs
+// are never modified in place, so this undoes all changes made since.
+func (t *Transaction) rollback(catalog *Catalog, dirty bool) {
+	// acquire write lock
+	t.mutex.Lock()
+	defer t.mutex.Unlock()
+
+	t.catalog = catalog
+	t.dirty = dirty
+}
+
 // Dirty will return whether the transaction contains changes.
 func (t *Transaction) Dirty() bool {
 	// acquire read lock
